@@ -150,9 +150,12 @@ class ConfigParser(ABC):
             config_l[0] = config_l[0].strip()
         self.lines = self._parse_lines(config_l)
         self.dic = self._parse_dic(config_l)
-        self.mdic = self._parse_mdic(config_l)
+        try:
+            self.mdic = self._parse_mdic(config_l)
+            self.mdic_text = self._join_mdic_text(self.mdic)
+        except RecursionError as ex:
+            raise ValueError("invalid config, indentation is nested too deep") from ex
         self.dic_text = {k: "\n".join(v) for k, v in self.dic.items()}
-        self.mdic_text = self._join_mdic_text(self.mdic)
 
     @staticmethod
     def _parse_lines(config_l: LStr) -> LStr:
